@@ -1125,7 +1125,70 @@ pub fn c07(em: &mut Emit, thorough: bool, seed: u64) {
     }
 }
 
+/// The public conversions into a `Body` (`Body::empty()`, `From<&'static [u8]>`, `From<&'static
+/// str>`, `From<Vec<u8>>`, `From<String>`): hint exact before every poll, the flag true only when
+/// nothing is left, one data frame with exactly the bytes (none when empty), then the end, which
+/// stays the end.
+pub fn conversion_bodies(em: &mut Emit) {
+    let texts: [&'static str; 4] = ["", "x", "hello, world", "0123456789abcdef0123456789abcdef0123456789abcdef0123456789abcdef!"];
+    for t in texts {
+        let makers: Vec<(&str, SBody)> = vec![
+            ("&'static [u8]", SBody::from(t.as_bytes())),
+            ("&'static str", SBody::from(t)),
+            ("Vec<u8>", SBody::from(t.as_bytes().to_vec())),
+            ("String", SBody::from(t.to_string())),
+        ];
+        let mut all = makers;
+        if t.is_empty() {
+            all.push(("Body::empty()", SBody::empty()));
+        }
+        for (what, body) in all {
+            let recs = drive(body, 5);
+            let mut ok = true;
+            let mut why = String::new();
+            let mut left = t.len() as u64;
+            let mut ended = false;
+            let mut got: Vec<u8> = vec![];
+            for (i, r) in recs.iter().enumerate() {
+                if r.lower != left || r.upper != Some(left) {
+                    ok = false;
+                    why = format!("poll {}: hint ({}, {:?}) with {} bytes left", i, r.lower, r.upper, left);
+                    break;
+                }
+                if r.eos && left > 0 {
+                    ok = false;
+                    why = format!("poll {}: is_end_stream with {} bytes left", i, left);
+                    break;
+                }
+                match &r.out {
+                    // (a conversion from an empty value yields one empty frame: no bytes, allowed)
+                    Out::Data(d) if !ended && (!d.is_empty() || t.is_empty()) => {
+                        got.extend_from_slice(d);
+                        left -= (d.len() as u64).min(left);
+                    }
+                    Out::End => ended = true,
+                    other => {
+                        ok = false;
+                        why = format!("poll {}: unexpected {:?}", i, other);
+                        break;
+                    }
+                }
+            }
+            if ok && (!ended || got != t.as_bytes()) {
+                ok = false;
+                why = "did not deliver exactly its bytes and then end".into();
+            }
+            em.pred_only(
+                &format!("Body::from({}) of {} bytes, polled 5 times", what, t.len()),
+                &pred(ok, || why.clone()),
+                "conversion",
+            );
+        }
+    }
+}
+
 pub fn c12_serve(em: &mut Emit, thorough: bool, seed: u64) {
+    conversion_bodies(em);
     let mut rng = Rng::new(seed ^ 0xC12);
     for c in honest_cases(&mut rng, thorough) {
         run_case(em, &c, &pred_c12);
@@ -1136,6 +1199,7 @@ pub fn c12_serve(em: &mut Emit, thorough: bool, seed: u64) {
 }
 
 pub fn c20_serve(em: &mut Emit, thorough: bool, seed: u64) {
+    conversion_bodies(em);
     let mut rng = Rng::new(seed ^ 0xC20);
     // corpus: F9
     {
